@@ -385,4 +385,65 @@ class C13:
         return case          # the two replays of a case must stay identical; line-wise shrinking would break the pairing
 
 
-SPECS = {'C01': C01, 'C02': C02, 'C08': C08, 'C13': C13}
+class C19:
+    what = 'XmlTabGen.v (frame header formatter / parser tables) regenerated from the sources; SADM frame write -> parse -> write on libadm'
+    use_model = False
+    snapshots = False
+    rule = ('API-built documents (histories as C01) crossed with random FrameHeaders (short and long frameFormatIDs, the '
+            'five frame types, both time references and the defaulted one, flowID, countToFull, numMetadataChunks, '
+            'countToSameChunk, changedIDs of the eight kinds and four statuses, profile lists, transportTrackFormats '
+            'with names, counts and audioTracks with format and audioTrackUIDRefs) and the four SadmWriterOptions '
+            'combinations: writeXml(frame) -> parseFrameHeader + parseXml(header) -> writeXml, bytes compared; block '
+            'time attributes checked against the time reference; the same frame parsed with a header of the other time '
+            'reference must be rejected, and accepted with permit_time_reference_mismatch')
+    assumptions = C01.assumptions + ['the mismatch rule is exercised on frames that contain at least one timed block format']
+    ncases_quick, ncases_thorough = 400, 8000
+
+    @classmethod
+    def gen(cls, ctx):
+        n = cls.ncases_quick if ctx.quick() else cls.ncases_thorough
+        hist = successful_prefixes([xml_history(ctx.rng, ctx.quick()) for _ in range(n)])
+        out = []
+        for c, docs in hist:
+            c = list(c)
+            # make sure timed block formats exist in most frames
+            chans = [l.split()[1] for l in c if l.startswith('new ') and l.split()[2] == 'chan' and l.split()[3] in ('1', '3', '4', '5')]
+            if chans and ctx.rng.random() < 0.7:
+                h = ctx.rng.choice(chans)
+                td = next(l.split()[3] for l in c if l.startswith('new %s chan' % h))
+                c += ['add %s %s' % (docs[0], h), 'fillblock %s %s %d 0' % (h, td, ctx.rng.randrange(1 << 30)),
+                      'fillblock %s %s %d 2000000000' % (h, td, ctx.rng.randrange(1 << 30))]
+            for d in docs:
+                for _ in range(3):
+                    c.append('frame %s %d %d %d %d' % (d, ctx.rng.randrange(2), ctx.rng.randrange(2), ctx.rng.randrange(2), ctx.rng.randrange(1 << 30)))
+            out.append(c + ['end'])
+        return out
+
+    @staticmethod
+    def nontrivial(ops):
+        return any(op.startswith('frame') and 'timed=' in r and not r.endswith('timed=0') for op, r, _s in ops)
+
+    @staticmethod
+    def oracle(case, ops):
+        out = []
+        for op, r, _s in ops:
+            if not op.startswith('frame') or r.startswith('ok same'):
+                continue
+            t = r.split()
+            kind = t[1] if len(t) > 1 else 'error'
+            # the add of the channel format appended by the generator may throw (other document): not a frame result
+            if r.startswith('exn'):
+                out.append(('frame-error:' + r.replace(' ', '-'), '`%s`: %s' % (op, r)))
+                continue
+            what = {'DIFF': 'the re-written frame differs', 'REPARSE-FAILED': 'the written frame is rejected',
+                    'WRITE-FAILED': 'writeXml throws', 'TIMEREF': 'block times do not follow the time reference',
+                    'MISMATCH-ACCEPTED': 'a frame contradicting its header is accepted',
+                    'PERMIT-REJECTED': 'permit_time_reference_mismatch does not permit the mismatch'}.get(kind, 'error')
+            detail = ' '.join(t[2:])
+            import re
+            m = re.search(r'<(\w+)', detail) if kind == 'DIFF' else None
+            out.append(('frame-%s%s' % (kind.lower(), ':' + m.group(1) if m else ''), '`%s`: %s: %s' % (op, what, detail[:240])))
+        return out
+
+
+SPECS = {'C01': C01, 'C02': C02, 'C08': C08, 'C13': C13, 'C19': C19}
